@@ -78,6 +78,11 @@ def r1_ladder(ctx):
                 # values that round up to 10^k at that precision may go to the scientific form (they are the next decade's business)
                 notfixed = [(lf, reg) for lf, reg, fm, im in cov if fm is None and reg.carry_upto < pk]
                 cov = [c for c in cov if c[2] is not None]
+                crash = [lf for lf, _ in notfixed if lf.kind == "raise" and isinstance(lf.value, Lit) and not lf.state.facts]
+                if crash:
+                    # every test on the path was decided by the interval alone: each value of that part of the decade ends in the exception
+                    ctx.fail(f"{tag}: a field is returned", crash[0].node, f"values in {crash[0].iv} raise {crash[0].value.s}")
+                    continue
                 unknown = [lf for lf, _ in notfixed if not _is_scientific(lf)]
                 if unknown:
                     ctx.error(f"{tag}: a path renders the value in a form that is not modelled", unknown[0].node,
@@ -189,7 +194,7 @@ def r2_scientific(ctx):
         fn = ctx.src.func(BULK, q)
         if not fn.args.args:
             raise AnchorError(f"{q}: parameter")
-        firsts, finals = set(), {}
+        firsts, finals, undecided_paths = set(), {}, set()
         for label, iv, neg, small, expzero in SCI_INTERVALS:
             for e in ((1,) if expzero else (1, 2, 3)):
                 run = SciRun(ctx, q, label, iv, neg, small, e)
@@ -214,17 +219,26 @@ def r2_scientific(ctx):
                     if wi is None or wf is None:
                         ctx.error(f"{tag}: rendering `{describe(v)}` is not modelled", node)
                         continue
+                    # a rendering reached only through a test the model does not decide may belong to no value of this regime:
+                    # nothing is proved wrong by it
+                    open_ = sorted({f[0] for lf in rets if lf.value == v for f in lf.state.facts})
+
+                    def check(ok, what, detail, **kw):
+                        if not ok and open_:
+                            ctx.error(f"{what}: not decided - the path depends on a test that is not modelled", node, {"tests": open_[:3], "would report": detail})
+                        else:
+                            ctx.check(ok, what, node, None if ok else detail, **kw)
                     ok = wi == W and wf == W
-                    ctx.check(ok, f"{tag}: mantissa + {'D + ' if extra else ''}sign + exponent digits fill exactly {W} characters", node,
-                              None if ok else {"characters": wi, "after justification": wf, "rendering": describe(v)})
+                    check(ok, f"{tag}: mantissa + {'D + ' if extra else ''}sign + exponent digits fill exactly {W} characters",
+                          {"characters": wi, "after justification": wf, "rendering": describe(v)})
                     okc = wc is not None and wc <= W
-                    ctx.check(okc, f"{tag}: a mantissa that rounds up to 10 still fits (its zeros are stripped)", node,
-                              None if okc else {"characters": wc}, nontrivial=False)
+                    check(okc, f"{tag}: a mantissa that rounds up to 10 still fits (its zeros are stripped)", {"characters": wc}, nontrivial=False)
                     ps = run.mantissa_precision(v)
                     ok = len(ps) == 1 and min(ps) >= 0
-                    ctx.check(ok, f"{tag}: mantissa precision is non-negative", node, sorted(ps), nontrivial=False)
+                    check(ok, f"{tag}: mantissa precision is non-negative", sorted(ps), nontrivial=False)
                     if len(ps) == 1:
-                        finals[(neg, e)] = min(ps)
+                        finals[(neg, e)] = max(min(ps), finals.get((neg, e), -1))
+                        undecided_paths |= set(open_)
                     firsts |= first_stage_precision(v, run.param)
                     if e == 1:
                         pcs = run.pieces(v)
@@ -232,16 +246,21 @@ def r2_scientific(ctx):
                         lits = "".join(t for k, t in pcs if k == "lit")
                         want = extra + ("-" if small else "+")
                         ok = kinds == ["mantissa", "lit", "exp"] and (lits == want or (expzero and lits in (extra + "-", extra + "+")))
-                        ctx.check(ok, f"{tag}: field = mantissa + {want!r} + exponent digits (exponent sign '-' exactly when |value| < 1)", node,
-                                  None if ok else {"pieces": [(k, t if k == "lit" else describe(t)) for k, t in pcs]})
+                        if expzero and kinds == ["mantissa", "lit"] and lits in (extra + "-0", extra + "+0"):
+                            ok = True                # the exponent 0 written as a literal digit
+                        check(ok, f"{tag}: field = mantissa + {want!r} + exponent digits (exponent sign '-' exactly when |value| < 1)",
+                              {"pieces": [(k, t if k == "lit" else describe(t)) for k, t in pcs]})
         ctx.check(len(firsts) <= 1, f"{q}: first-stage scientific rendering found", fn, sorted(firsts), nontrivial=False)
         if len(firsts) == 1 and finals:
             first = min(firsts)
             widest = max(finals.values())
             ok = first - widest >= 2
-            ctx.check(ok, f"{q}: first-stage `e` precision ({first}) exceeds the widest final mantissa precision ({widest}) by >= 2 digits "
-                          "(two-stage rounding slack <= 1 percent of the last digit)", fn,
-                      None if ok else {"first stage": first, "final": widest})
+            what = (f"{q}: first-stage `e` precision ({first}) exceeds the widest final mantissa precision ({widest}) by >= 2 digits "
+                    "(two-stage rounding slack <= 1 percent of the last digit)")
+            if not ok and undecided_paths:
+                ctx.error(what + ": not decided - a rendering depends on a test that is not modelled", fn, sorted(undecided_paths)[:3])
+            else:
+                ctx.check(ok, what, fn, None if ok else {"first stage": first, "final": widest})
         # zero
         from .c12_exec import Interval
         z = SciRun(ctx, q, "zero", Interval(Fraction(0), True, Fraction(0), True), False, True, 1)
